@@ -30,9 +30,10 @@ ALPHA = ['a', 'b', 'c', ' ', ' ', '\t', ' ', '　']
 MODES = ['aligned', 'diffuse', 'short', 'absent', 'legacy', 'nowindow', 'tight', 'exact']
 MINCONF = [0.0, 0.5]
 BASELINES = ['straight2', 'slanted4', 'speck']
-AR = ['ب', 'ا', 'x', '1', ' ']
+AR = ['ب', 'ا', 'x', '1', ' ', '\u00a0', '\t']
 ORD = ['ب', 'ا', 'x', '1', ' ', '.', '،']
 CHARSET = ['a', 'b', ' ', '​']
+CHARSET_PERMUTED = ['b', ' ', 'a', '​']
 BOUNDS = {'quick': dict(L=3, Lr=4, La=4, Lo=6, max_lines=3), 'thorough': dict(L=4, Lr=5, La=5, Lo=7, max_lines=4)}
 BOUNDS['replay'] = BOUNDS['quick']
 PAGE = (200, 400)   # height, width
@@ -264,10 +265,18 @@ def parse_alto(xml):
     return out
 
 
+def ref_is_arabic_line(text):
+    """independent of the library: a line is Arabic-script if one of its white-space separated words consists of Arabic letters only"""
+    def ar(ch):
+        o = ord(ch)
+        return 0x0600 <= o <= 0x06ff or 0x0750 <= o <= 0x077f or 0xfb50 <= o <= 0xfdff or 0xfe70 <= o <= 0xfefc
+    return any(w and all(ar(ch) for ch in w) for w in text.split())
+
+
 def expected_words(text):
     ws = text.split()
     ah = arabic_helper()
-    if ah.is_arabic_line(text):
+    if ref_is_arabic_line(text):
         ws = [ah.label_form_to_string(w) for w in ws]
     return ws
 
@@ -384,7 +393,7 @@ def check_export(page, minconf, ctx, K, desc, sub, frac=False):
             ctx.violation('export-always-succeeds', f'{K}/re-export-of-imported-page-raises/{type(e).__name__}',
                           f'{desc}: exporting the re-imported page raised {type(e).__name__}: {e}', sub)
             return None
-        has_arabic = any(arabic_helper().is_arabic_line(' '.join(w)) for blk in all_words for w in blk)
+        has_arabic = any(ref_is_arabic_line(' '.join(w)) for blk in all_words for w in blk)
         # (an ALTO file holds Arabic words in logical order; exporting an imported page converts once more, so only Latin pages compare)
         if not has_arabic and again != [[w for w in blk if w] for blk in all_words]:
             ctx.violation('reimport-returns-same-words', f'{K}/re-export-differs', f'{desc}: {all_words} vs {again}', sub)
@@ -399,8 +408,13 @@ def check_text(case, ctx):
     for mi, ci, bi in combos:
         mode, minconf, bshape = MODES[mi], MINCONF[ci], BASELINES[bi]
         sub = dict(case, cfg=[mi, ci, bi])
-        line = make_line('r1-l001', text, mode, baseline=bshape)
+        # the lines of a page may come from different engines: every second case gives the tested line a character table of the same size in
+        # another order than its neighbour's
+        cs = CHARSET if (sum(case['text']) + mi) % 2 == 0 else CHARSET_PERMUTED
+        line = make_line('r1-l001', text, mode, baseline=bshape, charset=cs)
         first = make_line('r1-l000', 'b a', 'aligned', y=120)
+        if cs is CHARSET_PERMUTED:
+            ctx.tag('lines-with-different-character-tables')
         page = make_page([('r1', REGION_BOXES[1], [first, line])])
         desc = f'transcription {text!r} mode={mode} min_conf={minconf} baseline={bshape}'
         doc = check_export(page, minconf, ctx, f'{ID}/{mode}', desc, sub)
@@ -506,7 +520,7 @@ def check_multi(case, ctx):
     doc = check_export(page, 0.0, ctx, f'{ID}/multi-{case["mode"]}', desc, case)
     if doc is not None:
         ah = arabic_helper()
-        kinds = {ah.is_arabic_line(t) for t in texts}
+        kinds = {ref_is_arabic_line(t) for t in texts}
         if len(kinds) == 2:
             ctx.nontrivial(('multi', tuple(case['multi']), case['mode'], case['split']), 'mixed-script-pages')
         ctx.outcome(('multi', tuple(len(t.split()) for t in texts)))
@@ -522,7 +536,7 @@ def check_arabic(case, ctx):
         page = make_page([('r1', REGION_BOXES[1], [line])])
         desc = f'Arabic-script transcription {text!r} mode={mode}'
         doc = check_export(page, 0.0, ctx, f'{ID}/arabic-{mode}', desc, case)
-        if doc is not None and arabic_helper().is_arabic_line(text):
+        if doc is not None and ref_is_arabic_line(text):
             ctx.nontrivial(('arabic', text, mode), 'arabic-line-exported')
             ctx.outcome(('arabic', len(text.split())))
 
@@ -576,7 +590,7 @@ def describe(tier):
         'assumptions': ['print space compared exactly for integer region coordinates, within 2 px for fractional ones (values are truncated separately)',
                         'a line counts as dropped iff the confidence the export stored on it is below min_line_confidence; that confidence must be > 0.99 for one-hot-like posteriors and <= 0.5 for near-uniform or unalignable ones'],
         'min_nontrivial': 100,
-        'required_tags': ['more-than-nine-blocks-or-lines', 'export-history-on-one-page', 'lines-with-more-than-1000-frames', 'mixed-script-pages', 'multi-word-aligned', 'two-region-pages', 'arabic-line-exported', 'order-conversion-reorders',
+        'required_tags': ['lines-with-different-character-tables', 'more-than-nine-blocks-or-lines', 'export-history-on-one-page', 'lines-with-more-than-1000-frames', 'mixed-script-pages', 'multi-word-aligned', 'two-region-pages', 'arabic-line-exported', 'order-conversion-reorders',
                           'non-ascii-or-tab-white-space', 'fallback-branch', 'line-dropped-by-confidence-filter',
                           'print-space-not-reaching-page-edge'],
     }
